@@ -18,7 +18,8 @@ range check at every integer construction). This file contains the property theo
      MIN/MAX/WITHIN, comparisons, to-boolean, canonical integer encoding and CONVERT round trips, NUMEQUAL
      vs EQUAL, PACK/UNPACK/PACKMAP inverses, NEWARRAY_T defaults, the ordered-map and list laws of
      PICKITEM/SETITEM/APPEND/REMOVE/HASKEY/KEYS/VALUES, REVERSEITEMS involution, SUBSTR/LEFT/RIGHT/CAT/MEMCPY,
-     deep copy of Struct and its budget, EQUAL on Structs = structural equality (Proofs/VmSpecStructEq.lean);
+     deep copy of Struct and its budget, EQUAL on Structs = structural equality (Proofs/VmSpecStructEq.lean), results of creating instructions are fresh and
+     share nothing with their operands, ByteStrings never change (Proofs/VmSpecFresh.lean);
   7. (Proofs/VmRefDiff.lean, Proofs/VmReachWalk.lean) the known finding refcount-cyclic-garbage as a theorem
      between the specification and the implementation's counter model of C12.
 Helper lemmas: `Proofs/VmNum.lean`, `Proofs/VmEq.lean`.
@@ -33,6 +34,7 @@ import NeoModel.Proofs.VmSpecConvB
 import NeoModel.Proofs.VmSpecClone
 import NeoModel.Proofs.VmSpecStructEq
 import NeoModel.Proofs.VmSpecStep
+import NeoModel.Proofs.VmSpecFresh
 import NeoModel.Proofs.VmReachWalk
 open NeoModel NeoModel.Vm
 namespace NeoModel.Vm.C13
